@@ -1046,7 +1046,16 @@ pub fn gen_growth(r: &mut Rng) -> Vec<u8> {
     // Mostly tens of steps; now and then thousands (deep trees, deep
     // recursion, long-lived memoised sizes).
     let n = if r.chance(1, 25) { 1000 + r.usize_below(5000) } else { 10 + r.usize_below(cap) };
-    let unit = r.below(13);
+    // (the plain doubling step with one fixed opcode three times in ten)
+    let unit = if r.chance(3, 10) { 0 } else { r.below(13) };
+    // Every two-operand opcode gets its turn as the doubling step: each has
+    // its own arm in the value tree's size bookkeeping.
+    const BINARY: [u8; 21] = [
+        op::ADD, op::MUL, op::SUB, op::DIV, op::SDIV, op::MOD, op::SMOD, op::EXP, op::SIGNEXTEND, op::LT, op::GT,
+        op::SLT, op::SGT, op::EQ, op::AND, op::OR, op::XOR, op::BYTE, op::SHL, op::SHR, op::SAR,
+    ];
+    let bin_op = *r.pick(&BINARY);
+    let tern_op = if r.chance(1, 2) { op::ADDMOD } else { op::MULMOD };
     for i in 0..n {
         match if r.chance(1, 10) { r.below(13) } else { unit } {
             9 => {
@@ -1070,13 +1079,14 @@ pub fn gen_growth(r: &mut Rng) -> Vec<u8> {
                 a.dup(1).op(op::PUSH0).op(op::PUSH0).op(op::LOG0 + 1);
             }
             0 => {
-                a.dup(1).op(op::ADD);
+                a.dup(1).op(bin_op);
             }
             1 => {
-                a.dup(1).op(op::MUL);
+                let o = *r.pick(&BINARY);
+                a.dup(1).op(o);
             }
             2 => {
-                a.dup(1).dup(1).op(op::ADDMOD);
+                a.dup(1).dup(1).op(tern_op);
             }
             3 => {
                 // hash chain through memory
